@@ -52,7 +52,8 @@ def infer_redirection(url, recursive=True):
         obvious_redirect_match = re.search(OBVIOUS_REDIRECTS_RE, url.split("#", 1)[0])
 
         if obvious_redirect_match is not None:
-            if obvious_redirect_match.group(1) == "q":
+            # NOTE: the keys are matched whatever their case, "Q" is "q"
+            if obvious_redirect_match.group(1).lower() == "q":
                 if "/url?q=" not in url and "/redirect" not in url:
                     return url
 
